@@ -2,6 +2,7 @@ pub mod common;
 pub mod c01;
 pub mod c03;
 pub mod c04;
+pub mod c05;
 pub mod c06;
 pub mod c07;
 pub mod c08;
@@ -15,6 +16,7 @@ pub fn dispatch(ctx: &Ctx, rep: &mut Report) -> bool {
         "C01" => c01::run(ctx, rep),
         "C03" => c03::run(ctx, rep),
         "C04" => c04::run(ctx, rep),
+        "C05" => c05::run(ctx, rep),
         "C06" => c06::run(ctx, rep),
         "C07" => c07::run(ctx, rep),
         "C08" => c08::run(ctx, rep),
